@@ -83,8 +83,9 @@ def spend(shape: str, c: int, served_head: str = "P", twin: bool = False, real: 
             ins_all = [[(0, 0, 0), (c, idx, kind)]]
             txs = [W.make_tx(t1id, ins_all[0], [(ov0, 1), (ov1, 2)], pv, cb.hash(), None)]
         elif shape == "2in-first":
-            # the adversarial input comes FIRST, a valid one (T11,0) last
-            ins_all = [[(c, idx, kind), (2, 0, 0)]]
+            # the adversarial input comes FIRST; the valid one that follows spends another output of the SAME earlier
+            # transaction where possible ((T10,1), owner K1), else (T10,0)
+            ins_all = [[(c, idx, kind), (1, 1, 0) if c != 1 else (0, 0, 0)]]
             txs = [W.make_tx(t1id, ins_all[0], [(ov0, 1), (ov1, 2)], pv, cb.hash(), None)]
         else:
             ins_all = [[(0, 0, 0)], [(c, idx, kind)]]
